@@ -44,6 +44,10 @@ pub struct ProbeScen {
     b: Basic,
     attacker: u32,
     victim: u32,
+    /// the client connection of the probed pair
+    pair_key: u32,
+    /// the server end of the pair sends the probe, the client is the victim
+    hostile_server: bool,
     kind: u32,
     delta: i64,
     probe: Option<Probe>,
@@ -61,8 +65,16 @@ fn stream_frame(out: &mut Vec<u8>, id: u64, off: u64, len: usize, fin: bool) {
 
 impl ProbeScen {
     /// the victim's advertised limits right now: configuration + MAX_* frames it has sealed
+    fn victim_knobs(&self) -> &TKnobs {
+        if self.hostile_server {
+            &self.b.client_knobs
+        } else {
+            &self.b.server_knobs
+        }
+    }
+
     fn advertised(&self, w: &World) -> (u64, BTreeMap<u64, u64>, [u64; 2]) {
-        let k = &self.b.server_knobs;
+        let k = self.victim_knobs();
         let mut max_data = k.conn_window;
         let mut msd: BTreeMap<u64, u64> = BTreeMap::new();
         let mut ms = [k.max_bidi, k.max_uni];
@@ -87,7 +99,10 @@ impl ProbeScen {
     }
 
     fn build_probe(&self, w: &World) -> Option<Probe> {
-        let k = &self.b.server_knobs;
+        let k = self.victim_knobs();
+        // stream ids the attacker initiates: low bit 1 when the attacker is the server
+        let ini: u64 = if self.hostile_server { 1 } else { 0 };
+        let uni0 = 2 | ini;
         let (max_data, msd, ms) = self.advertised(w);
         let d = self.delta;
         let mut f = Vec::new();
@@ -97,7 +112,7 @@ impl ProbeScen {
                 if ms[1] == 0 {
                     return None;
                 }
-                let id = 2; // client uni #0
+                let id = uni0; // the attacker's unidirectional stream #0
                 let l = msd.get(&id).copied().unwrap_or(0).max(k.stream_window);
                 let lim = l.min(max_data);
                 let end = lim as i64 + d;
@@ -114,7 +129,7 @@ impl ProbeScen {
                 if idx < 0 {
                     return None;
                 }
-                let id = ((idx as u64) << 2) | if i == 1 { 2 } else { 0 };
+                let id = ((idx as u64) << 2) | if i == 1 { 2 } else { 0 } | ini;
                 stream_frame(&mut f, id, 0, 0, true);
                 Some(Probe { kind: if i == 1 { "uni-stream-count" } else { "bidi-stream-count" }, delta: d, frames: f, expect: if idx as u64 >= ms[i] { Some(STREAM_LIMIT_ERROR) } else { None }, watch: None, detail: format!("STREAM on stream index {} with {} streams permitted", idx, ms[i]) })
             }
@@ -123,7 +138,7 @@ impl ProbeScen {
                 if ms[1] == 0 || k.stream_window.min(max_data) < 12 {
                     return None;
                 }
-                let id = 2;
+                let id = uni0;
                 stream_frame(&mut f, id, 0, 10, false);
                 let fin = 10 + d;
                 f.push(0x04);
@@ -137,7 +152,7 @@ impl ProbeScen {
                 if ms[1] == 0 || k.stream_window.min(max_data) < 12 {
                     return None;
                 }
-                let id = 2;
+                let id = uni0;
                 stream_frame(&mut f, id, 0, 5, true);
                 let off = 5 + d;
                 if off < 1 {
@@ -165,7 +180,29 @@ impl ProbeScen {
             }
             // CRYPTO data further ahead than the buffer allows (never contiguous: offset >= 1)
             _ => {
-                let buf = k.crypto_buffer as i64;
+                // the allowance counts from what the victim's TLS stack has consumed: a client
+                // has read the session tickets its server sent after the handshake
+                let consumed = {
+                    let t = w.tap.lock().unwrap();
+                    let ranges = |enc: bool, inc: u32| {
+                        let mut r = crate::util::Ranges::new();
+                        for p in t.pkts.iter().filter(|p| p.enc == enc && p.ok && p.inc == inc && p.space == Space::OneRtt) {
+                            for f in wire::frames(&p.payload).0 {
+                                if let Frame::Crypto { offset, len } = f {
+                                    r.insert(offset, offset + len as u64);
+                                }
+                            }
+                        }
+                        r
+                    };
+                    let (sent, got) = (ranges(true, self.attacker), ranges(false, self.victim));
+                    if sent.v != got.v || !got.covers_prefix(got.max_end()) {
+                        // (something is still under way: the boundary would move under the probe)
+                        return None;
+                    }
+                    got.max_end() as i64
+                };
+                let buf = consumed + k.crypto_buffer as i64;
                 let end = buf + d;
                 if end < 2 {
                     return None;
@@ -174,7 +211,7 @@ impl ProbeScen {
                 put_var(&mut f, end as u64 - 1);
                 put_var(&mut f, 1);
                 f.push(0x16);
-                Some(Probe { kind: "crypto-buffer", delta: d, frames: f, expect: if end > buf { Some(CRYPTO_BUFFER_EXCEEDED) } else { None }, watch: None, detail: format!("CRYPTO byte at offset {} with a {}-byte buffer", end - 1, buf) })
+                Some(Probe { kind: "crypto-buffer", delta: d, frames: f, expect: if end > buf { Some(CRYPTO_BUFFER_EXCEEDED) } else { None }, watch: None, detail: format!("CRYPTO byte at offset {} with {} bytes consumed and a {}-byte buffer", end - 1, consumed, k.crypto_buffer) })
             }
         }
     }
@@ -186,9 +223,15 @@ impl Scenario for ProbeScen {
     }
     fn on_accepted(&mut self, w: &mut World, inc: u32, dgram: u32) {
         self.b.on_accepted(w, inc, dgram);
-        if w.conns[inc as usize].peer == self.attacker && self.victim == NO_INC {
-            self.victim = inc;
-            // the victim application only reads on this connection
+        if w.conns[inc as usize].peer == self.pair_key && self.victim == NO_INC {
+            if self.hostile_server {
+                self.attacker = inc;
+                self.victim = self.pair_key;
+            } else {
+                self.victim = inc;
+            }
+            // the victim application only reads on this connection, the attacker's carries
+            // nothing but the probe
             if let Some(s) = self.b.wl.sides.get_mut(&inc) {
                 s.plans.clear();
             }
@@ -199,7 +242,7 @@ impl Scenario for ProbeScen {
     }
     fn on_wake(&mut self, w: &mut World, tag: u64) {
         if tag == TAG_PROBE {
-            let ready = self.victim != NO_INC && self.b.wl.sides.get(&self.attacker).is_some_and(|s| s.confirmed) && self.b.wl.sides.get(&self.victim).is_some_and(|s| s.connected) && !w.conns[self.attacker as usize].conn.is_closed();
+            let ready = self.victim != NO_INC && self.attacker != NO_INC && self.b.wl.sides.get(&self.attacker).is_some_and(|s| s.confirmed) && self.b.wl.sides.get(&self.victim).is_some_and(|s| s.connected) && !w.conns[self.attacker as usize].conn.is_closed();
             if ready && self.sent_at.is_none() {
                 if let Some(p) = self.build_probe(w) {
                     w.tap.lock().unwrap().inject.entry((self.attacker, Space::OneRtt)).or_default().push_back((p.frames.clone(), false));
@@ -248,7 +291,9 @@ fn run_probe(ch: Chooser, ctx: &RunCtx) -> RunOut {
     sk.dgram_recv_buf = *w.ch.pick("c06.dgram_recv_buf", &[Some(100usize), None, Some(1), Some(50), Some(1000), Some(1_250_000)]);
     sk.crypto_buffer = *w.ch.pick("c06.crypto_buffer", &[16_384usize, 1500, 2000, 4096]);
     let ck = TKnobs { pad_to_mtu: true, ..Default::default() };
-    opts.fixed_knobs = Some((sk, ck));
+    // one world in three: the limits are the client's and the server end sends the probe
+    let hostile_server = w.ch.chance("c06.hostile_server", 1, 3);
+    opts.fixed_knobs = Some(if hostile_server { (ck, sk) } else { (sk, ck) });
     let mut b = Basic::build(&mut w, opts);
     let attacker = *b.client_incs.first().unwrap_or(&NO_INC);
     b.wl.unchecked.insert(attacker);
@@ -258,7 +303,10 @@ fn run_probe(ch: Chooser, ctx: &RunCtx) -> RunOut {
     }
     let kind = w.ch.choose("c06.kind", 7);
     let delta = *w.ch.pick("c06.delta", &[1i64, 0, -1, 2, 1, 0]);
-    let mut sc = ProbeScen { b, attacker, victim: NO_INC, kind, delta, probe: None, sent_at: None, tries: 0 };
+    if hostile_server {
+        w.faults.hit("hostile_server");
+    }
+    let mut sc = ProbeScen { b, attacker: if hostile_server { NO_INC } else { attacker }, victim: NO_INC, pair_key: attacker, hostile_server, kind, delta, probe: None, sent_at: None, tries: 0 };
     let start = w.ch.range_log("c06.start_ms", 0, 400) * MS;
     w.wake_at(start, TAG_PROBE);
     w.run(&mut sc);
@@ -299,7 +347,7 @@ fn run_probe(ch: Chooser, ctx: &RunCtx) -> RunOut {
         // the other client's connection is untouched
         for c in &w.conns {
             let key = if c.side == Side::Client { c.inc } else { c.peer };
-            if key == sc.attacker || key == NO_INC {
+            if key == sc.pair_key || key == NO_INC {
                 continue;
             }
             if let Some(r) = c.lost.first() {
